@@ -1,2 +1,6 @@
 #!/bin/bash
-exec /verif/replays_src/run_overlay_test.sh /repo sql/internal/sqlx /verif/replays_src/C04/sort_changes_test.go TestGvcReplaySortChanges
+# property-level replay for C04: fixed small change sets in every input order, then the bounded graph enumeration
+/verif/replays_src/run_overlay_test.sh /repo sql/internal/sqlx /verif/replays_src/C04/sort_changes_test.go TestGvcReplaySortChanges
+rc=$?
+[ $rc -ne 0 ] && exit $rc
+exec /verif/replays_src/run_overlay_test.sh /repo sql/internal/sqlx /verif/replays_src/C04/graphs_bounded_test.go TestGvcBoundedGraphs
